@@ -55,7 +55,7 @@ def plan(tier):
     for q in m7.plan(tier)['queries']:
         if q.name.startswith('driver:') or (q.name.startswith('batch:') and 'mantis' not in q.name):
             q.name = 'parallel-' + q.name; q.group = 'parallel'; qs.append(q)
-    return dict(queries=qs, level='model_checking', pre=[pre_layout, pre_ll_diff],
+    return dict(queries=qs, level='model_checking', pre=[pre_engine_canaries, pre_layout, pre_ll_diff],
                 functions=['generic CTR back ends + dispatchers (native)', 'skinny128_ctr_vec128_*, skinny128_ctr_vec256_*, skinny64_ctr_vec128_*, mantis_ctr_vec128_* (clang IR)', 'parallel ECB: by C07 every back end equals block-by-block ECB, hence each other'],
                 bounds={'method': 'one-step bisimulation from arbitrary related states per operation; histories by induction (meta-step)', 'encrypt grid': 'positions (block index inside the vector batch, bytes used) x sizes as listed per query; 1-round arbitrary schedule (block functions at full depth: C05 deep, C07 batch)',
                         'key/tweak change': 'from states with nothing buffered and from the end of a vector batch; the mid-batch case is the recorded finding (known-findings.txt key=rekey-midstream), excluded only by that identification',
